@@ -110,7 +110,14 @@ func (f *flattener) applies(obj *graphql.Object, fragment *graphql.Fragment) (bo
 // flattenFragments flattens all fragments at the current level. It inlines the
 // selections of each fragment, but does not descend down recursively into those
 // selections.
-func (f *flattener) flattenFragments(selectionSet *graphql.SelectionSet, typ *graphql.Object, target *[]*graphql.Selection) error {
+func (f *flattener) flattenFragments(selectionSet *graphql.SelectionSet, typ *graphql.Object, target *[]*graphql.Selection, seen map[*graphql.SelectionSet]struct{}) error {
+	// A fragment reached several times at this level contributes the same
+	// selections each time; inlining it once keeps the work linear.
+	if _, ok := seen[selectionSet]; ok {
+		return nil
+	}
+	seen[selectionSet] = struct{}{}
+
 	// Start with the non-fragment selections. Selections excluded by @skip /
 	// @include take no part in merging (a plain field must not inherit the
 	// directives of a same-alias duplicate).
@@ -138,7 +145,7 @@ func (f *flattener) flattenFragments(selectionSet *graphql.SelectionSet, typ *gr
 			return err
 		}
 		if ok {
-			if err := f.flattenFragments(fragment.SelectionSet, typ, target); err != nil {
+			if err := f.flattenFragments(fragment.SelectionSet, typ, target, seen); err != nil {
 				return err
 			}
 		}
@@ -250,7 +257,7 @@ func (f *flattener) flatten(selectionSet *graphql.SelectionSet, typ graphql.Type
 		// Collect all selections on this object and merge selections
 		// with the same alias.
 		selections := make([]*graphql.Selection, 0, len(selectionSet.Selections))
-		if err := f.flattenFragments(selectionSet, typ, &selections); err != nil {
+		if err := f.flattenFragments(selectionSet, typ, &selections, make(map[*graphql.SelectionSet]struct{})); err != nil {
 			return nil, err
 		}
 		selections, err := mergeSameAlias(selections)
